@@ -336,6 +336,8 @@ def run_check(pid, tier, seed):
         with RepoLock():
             for j in jobs:
                 build_job(j)
+            if conf.get("extra_crash"):
+                build("prodlike", "xv_full")  # the strace-injection driver runs this binary
     except BuildError as e:
         print(f"INCONCLUSIVE property={pid} reason=build-failed {e}")
         return 3
@@ -386,7 +388,22 @@ def run_check(pid, tier, seed):
     m = merge_reports(pid, results)
     m["violations"] += crash_violations
     m["violation_count"] += len(crash_violations)
-    return finish(pid, tier, seed, conf, m, inconclusive_workers, len(tasks), t0)
+    n_tasks = len(tasks)
+    if conf.get("extra_crash"):
+        # an additional stage run by the strace-injection driver (e.g. I/O errors underneath the local store client)
+        import crashdrive
+        m2, inc2, n2 = crashdrive.run(pid, tier, seed, conf["extra_crash"])
+        m["evaluations"] += m2["evaluations"]
+        m["nontrivial"] += m2["nontrivial"]
+        m["sigs"].update(m2["sigs"])
+        for k, v in m2["counters"].items():
+            m["counters"][k] = m["counters"].get(k, 0) + v
+        m["samples"] += m2["samples"][:2]
+        m["violations"] += m2["violations"]
+        m["violation_count"] += m2["violation_count"]
+        inconclusive_workers += inc2
+        n_tasks += n2
+    return finish(pid, tier, seed, conf, m, inconclusive_workers, n_tasks, t0)
 
 
 def finish(pid, tier, seed, conf, m, inconclusive_workers, n_workers_total, t0):
@@ -478,7 +495,7 @@ def replay(pid, path):
     v = d["violation"]
     jd = v["_job"]
     conf = PROPS[pid]
-    if conf.get("custom"):
+    if conf.get("custom") or v.get("witness", {}).get("engine") == "crash":
         import crashdrive
         for j in conf["jobs"]:
             build(j.profile, j.pkg)
